@@ -180,7 +180,7 @@ def c12(ck, tmp):
         lines, reads, steps_l = [], [], []
         for k in range(rng.randint(4, 14)):
             w = G.walk(rng, g, adj, maxsteps=5)
-            if it % 6 == 0 and k in (0, 1):
+            if it % 6 == 0 and k in (0, 1, 2, 3):
                 w = [(g.segs[0]["id"], rng.choice("+-"))]
             pseq = "".join(seqd[n] if o == "+" else G.rc(seqd[n]) for n, o in w)
             if len(pseq) < 2:
@@ -190,6 +190,10 @@ def c12(ck, tmp):
                 a, b = 100, 100 + 60001 + rng.randint(0, 50)
             elif boundary:
                 a, b = 50, 50 + 60000          # exactly 60 000 read bases: the largest alignment that must still be realigned
+            elif it % 6 == 0 and k == 2:
+                a, b = 10, 10 + 59990          # the read will be longer than the limit, the path slice shorter (net insertions)
+            elif it % 6 == 0 and k == 3:
+                a, b = 20, 20 + 60050          # the read will be shorter than the limit, the path slice longer (net deletions)
             else:
                 a = rng.randrange(0, len(pseq) - 1)
                 b = rng.randrange(a + 1, min(len(pseq), a + 400) + 1)
@@ -197,8 +201,16 @@ def c12(ck, tmp):
                     a, b = 0, len(pseq)
             ref = pseq[a:b]
             rate = rng.choice([0.0, 0.02, 0.05, 0.15])
-            if len(ref) > 60000:
+            if len(ref) > 60000 and not (it % 6 == 0 and k == 3):
                 q, cg = ref, "%d=" % len(ref)
+            elif it % 6 == 0 and k == 2:
+                # 59 990 path bases, 60 093 read bases: two insertions; the input CIGAR is fragmented, so a realignment shows
+                q = ref[:20000] + G.rseq(rng, 50) + ref[20000:40000] + G.rseq(rng, 53) + ref[40000:]
+                cg = "12000=8000=50I20000=53I19990="
+            elif it % 6 == 0 and k == 3:
+                # 60 050 path bases, 59 990 read bases (one deletion): must be realigned; 'M'-form input CIGAR
+                q = ref[:30000] + ref[30060:]
+                cg = "30000M60D29990M"
             elif boundary:
                 q = list(ref)
                 for pos in rng.sample(range(len(q)), 3):
@@ -365,7 +377,7 @@ def main_c12():
         c12(ck, tmp)
     finally:
         shutil.rmtree(tmp, ignore_errors=True)
-    ck.rule = "random rGFAs with sequences x walks (forward/reverse steps, offsets anywhere or on node boundaries) x reads derived by substitutions/insertions/deletions at rates 0-15% with indels up to 60 and fragmented true CIGARs; one > 60 000-base record and one of exactly 60 000 bases (input CIGAR in 'M' form) every sixth file; cores 1-2, batch sizes 2/3/1000, plain/BGZF; non-trivial = the read differs from the path slice or the path has a reverse step"
+    ck.rule = "random rGFAs with sequences x walks (forward/reverse steps, offsets anywhere or on node boundaries) x reads derived by substitutions/insertions/deletions at rates 0-15% with indels up to 60 and fragmented true CIGARs; one > 60 000-base record, one of exactly 60 000 bases (input CIGAR in 'M' form), one with read > 60 000 >= path slice and one with read <= 60 000 < path slice every sixth file; cores 1-2, batch sizes 2/3/1000, plain/BGZF; non-trivial = the read differs from the path slice or the path has a reverse step"
     return ck.finish()
 
 
